@@ -2,6 +2,7 @@
 Require Import Parser Api Shape Build Printer.
 Require Import ParserRoundTrip ParserRoundTripV PrintedText.
 Require Lex LexWs.
+Require LexWsG.
 From Coq Require Import List String.
 Import ListNotations.
 
@@ -20,14 +21,14 @@ Theorem C05_printed_tree_parses_to_itself : forall (o : oracle) (t : qt), wfq o 
   parse_toks o "" (pr t ++ [eof]) = PTree (want o t).
 Proof. exact printed_tree_parses. Qed.
 
-(* and through the lexer, for ASCII text: the printed tokens written with single blanks between them (operators in their
-   canonical spelling) are the query text `text_of (pr t)`; if every printed token is what the lexer makes of its own text
-   (LexWs.lexes_alone: true of ordinary words, numbers, quoted strings and the operator spellings under Go's classification -
-   see the Example in Proofs/PrintedText.v), Parse of that text returns exactly the expected tree.
+(* and through the lexer, for any bytes: the printed tokens written with single blanks between them (operators in their
+   canonical spelling) are the query text `text_of (pr t)`; if every printed token is a proper token that the lexer returns
+   unchanged when a blank follows its text (LexWsG.lexes_clean: true of ordinary words in any script, numbers, quoted strings with
+   any bytes and the operator spellings - see the Example in Proofs/PrintedText.v; false only for a word ending in a dangling escape), Parse of that text returns exactly the expected tree.
    Oracle fact: the four whitespace runes are not letters or digits *)
 Theorem C05_printed_text_parses_to_the_tree : forall (o : oracle) (cl : Lex.classes),
   (forall r, Lex.is_space r = true -> Lex.is_alnum cl r = false) ->
-  forall t : qt, wfq o t -> Forall (LexWs.lexes_alone cl) (map ltok (pr t)) ->
+  forall t : qt, wfq o t -> Forall (LexWsG.lexes_clean cl) (map ltok (pr t)) ->
   Api.parse o cl "" (text_of (pr t)) = PTree (want o t).
 Proof. exact printed_text_parses. Qed.
 
